@@ -53,6 +53,8 @@ fixed('F19', ['C10'], 'A21w', 'adsg_core.optimization.assign_enc.eager.imputatio
       'ClosestImputer raised ValueError (broadcast (5,4) vs (6,)) and DeltaImputer never found a valid vector (invalid matrix returned) for every vector needing imputation in an existence pattern with fewer variables than the encoder as a whole (44 of 192 vectors in witness/w19)', 'witness/w19', 'cut the vector to the number of variables')
 fixed('F21', ['C07', 'C14'], 'A5f', 'adsg_core.optimization.hierarchy.fast:FastHierarchyAnalyzer.get_graph._get_graph:A5f:auto-taken-choices-recorded',
       'with the fast encoder a selection choice not flagged conditionally active was reported inactive in a valid design: X permanent, P=A removes one of its two options (incompatibility), the graph takes X automatically and the analyzer never recorded it (x=[0,1] -> active [True, False]; complete encoder: [True, True]; witness/w21)', 'witness/w21', 'took automatically')
+fixed('F22', ['C06'], 'A5r', 'adsg_core.graph.choices:get_mod_apply_selection_choice:A5r:infeasibility-marking-kept',
+      'an instance made infeasible by selecting X (incompatible with T, which every option of another choice derives) was reported feasible again after the next, unrelated selection - only when name(X) sorts before name(T): the marking edge X->T was treated as an ordinary constraint and removed with T (witness/w22)', 'witness/w22', 'stays infeasible when further choices')
 known('F7', ['C07', 'C03'], 'A6', 'adsg_core.optimization.assign_enc.encoding:EagerEncoder.get_matrix:A6:raw-vector-returned:return (list(vector) + extra_vector, matrix[i_mat, :, :])',
       'on a direct hit the eager encoder returns the input vector instead of the stored -1-marked one, so conditionally inactive variables are reported active (30 vectors in witness/w07)',
       'witness/w07', 'returning the stored vector changes what is_valid_vector(get_matrix(x)[0]) answers and breaks 6 existing tests; not a small repair')
